@@ -110,8 +110,13 @@ C07_reported(a, it, r, b) ==
         /\ Len(r.uids) = Cardinality(NewObjs(a, b))
 
 C07_dead(a, it, r, b, g) ==
+    \* an operation on a dead identifier fails and discloses nothing; where the refusal is about
+    \* the object it reads exactly like "no such object" (a refusal for another cause that precedes
+    \* the lookup - operation not supported under this version, malformed request - is not alarmed)
     /\ (Addresses(it) /\ TargetOf(a, it) \in g.dead) =>
-           ~Succ(r) /\ r.reason \in DenialReasons /\ r.uids = <<>> /\ r.attrs = <<>>
+           /\ ~Succ(r) /\ r.uids = <<>> /\ r.attrs = <<>> /\ r.names = <<>>
+           /\ (r.reason \in DenialReasons => r.mc = "NotFound")
+           /\ r.reason # "GeneralFailure"
     /\ (it.op = "Locate" /\ Succ(r)) => Range(r.uids) \cap g.dead = {}
     /\ \A u \in g.dead : u \notin DOMAIN b.objs
 
@@ -330,4 +335,5 @@ Holds(c, a, req, it, r, b, g) ==
       [] c = "C05_attrs" -> C05_attrs(a, req, it, r)
 
 FailedClauses(a, req, it, r, b, g) == {c \in ItemClauses : ~Holds(c, a, req, it, r, b, g)}
+FailedIn(S, a, req, it, r, b, g) == {c \in S \cap ItemClauses : ~Holds(c, a, req, it, r, b, g)}
 =============================================================================
